@@ -80,6 +80,9 @@ func (w *worker) runC09(p *harness.Pkg, t *tape.Tape, logOn bool) *verdict {
 	for i := 0; i < n; i++ {
 		rp := drawReq(t, p, ops, i)
 		rp.NoEmpty = validate && t.Choose(2, "wire-validity-domain") == 0
+		if rp.InjectCred > 0 && p.Schemes[(rp.InjectCred-1)%len(p.Schemes)].In != "query" {
+			rp.InjectCred = 0 // header credentials are typed header parameters of the request: the agreement oracle owns them
+		}
 		if config == 1 || config == 2 {
 			rp.Faults.ReqCutMode = t.Choose(5, "req-cut")
 			rp.Faults.RespCutMode = t.Choose(5, "resp-cut")
@@ -345,6 +348,14 @@ func (w *worker) runC10(p *harness.Pkg, t *tape.Tape, logOn bool) *verdict {
 		}
 		plan.Reqs = append(plan.Reqs, rp)
 	}
+	if config == 1 && t.Flip(1, 3, "poison") {
+		// a request whose response body write is rejected outright (client gone before the first byte): whatever the
+		// server keeps around from it must not leak into the other responses
+		pz := drawReq(t, p, ops, len(plan.Reqs))
+		pz.NotJudged = true
+		pz.Faults.WriterFail, pz.Faults.WriterFailAt0 = true, true
+		plan.Reqs = append([]harness.ReqPlan{pz}, plan.Reqs...)
+	}
 	res := harness.Exec(p, plan, t, logOn)
 	v := baseVerdict(p, plan, res)
 	countFaults(v, plan)
@@ -356,6 +367,10 @@ func (w *worker) runC10(p *harness.Pkg, t *tape.Tape, logOn bool) *verdict {
 	var dk []string
 	for i := range plan.Reqs {
 		rp := &plan.Reqs[i]
+		if rp.NotJudged {
+			v.counters["poison_requests"]++
+			continue
+		}
 		o := res.Obs[rp.Tag]
 		op := p.Ops[rp.Op]
 		dk = append(dk, o.Op, o.PlannedType, fmt.Sprint(hash64(o.Planned)), describeFaults(rp.Faults))
@@ -644,13 +659,27 @@ func (w *worker) runC20(p *harness.Pkg, t *tape.Tape, logOn bool) *verdict {
 				_ = v0
 			}
 		}
+		// a nested request: sent in-process by the harness handler of an earlier typed request while that one is served
+		if i > 0 && rp.Kind == 0 && rp.ValueTag == "" && t.Flip(1, 6, "nested") {
+			par := plan.Reqs[t.Choose(i, "nested-in")]
+			if par.Kind == 0 && par.Parent == "" {
+				rp.Parent, rp.Local, rp.Faults = par.Tag, true, sim.Faults{Seed: rp.Faults.Seed}
+			}
+		}
 		plan.Reqs = append(plan.Reqs, rp)
 	}
 	// reference: every request alone, zero tape, fresh API and Client
 	solo := map[string]map[string]string{}
 	for i := range plan.Reqs {
 		sp := *plan
-		sp.Reqs = []harness.ReqPlan{plan.Reqs[i]}
+		me := plan.Reqs[i]
+		me.Parent = "" // a nested request is referenced standing alone
+		sp.Reqs = []harness.ReqPlan{me}
+		for _, c := range plan.Reqs {
+			if c.Parent == me.Tag {
+				sp.Reqs = append(sp.Reqs, c) // a parent is referenced together with the requests its handler sends
+			}
+		}
 		sp.HashEvery = 0
 		sr := harness.Exec(p, &sp, tape.Zero(), false)
 		if sr.HarnessPanic != "" {
@@ -690,8 +719,16 @@ func (w *worker) runC20(p *harness.Pkg, t *tape.Tape, logOn bool) *verdict {
 	if !v.violated && res.Err == nil {
 		tags := append([]string(nil), res.Order...)
 		sort.Strings(tags)
+		parentOf := map[string]string{}
+		for _, rq := range plan.Reqs {
+			parentOf[rq.Tag] = rq.Parent
+		}
 	outer:
 		for _, tag := range tags {
+			if parentOf[tag] != "" && len(res.Obs[tag].Deliveries) == 0 && res.Obs[tag].ClientErr == "" && res.Obs[tag].ClientRet == "" {
+				v.counters["nested_requests_never_sent"]++ // the parent's handler did not run (401, 404, reset, ...)
+				continue
+			}
 			got := obsRecord(res.Obs[tag])
 			want := solo[tag]
 			fields := make([]string, 0, len(want))
